@@ -12,7 +12,7 @@ from harness.common import qlit, zlit, optlit, listlit
 from harness import exact as X
 
 VFILES = ['Lib/PySlice.v', 'Gen/GenConsts.v', 'Model/FastLen.v', 'Gen/GenUtils.v', 'Model/Ledger.v', 'Model/Band.v', 'Model/Disp.v',
-          'Proofs/LedgerProofs.v', 'Proofs/BandProofs.v', 'Proofs/DispProofs.v', 'Props/C06.v']
+          'Proofs/LedgerProofs.v', 'Proofs/BandProofs.v', 'Proofs/DispProofs.v', 'Gen/GenDisp.v', 'Proofs/DispGen.v', 'Props/C06.v']
 ALIGN = {'bottom': 0, 'center': 1, 'top': 2}
 K = Fraction(1000000, 241)
 
